@@ -295,13 +295,15 @@ theorem revoked_wins_full_false (hsrc : 0 ∉ C04.certRevocationChecks) :
 
 /-- **No credentials before trust (clause "before any credentials are sent").**  In every trace of the client
     machine, for every sequence of packets/times the server and network choose, each SERVICE_REQUEST and each
-    USERAUTH_REQUEST the client emits is preceded by: a KEX reply whose blob the decision accepted as key `k`,
-    the trace event `hostKeyAccepted k`, then `sigVerified k h` for a signature that verifies under `k` over the
+    USERAUTH_REQUEST the client emits is preceded by: a KEX reply whose blob the decision accepted as key `k` and
+    which fits the negotiated host key algorithm, the trace event `hostKeyAccepted k`, then `sigVerified k h` for
+    a signature that names the negotiated algorithm's signature algorithm and verifies under `k` over the
     exchange hash `h` of that reply. -/
 theorem no_auth_before_trust (cfg : Cfg Hash Sig) (evs : List (Ev Hash Sig)) (pre post : List (Out Hash))
     (o : Out Hash) (hrun : run cfg St.init evs = pre ++ o :: post) (ho : o.isAuthTraffic = true) :
     ∃ p h sg now4 k, Ev.kexReply p h sg now4 ∈ evs ∧
       validateHostKey cfg.trust cfg.app cfg.host cfg.addr cfg.port now4 p = .ok k ∧
+      cfg.keyAlgOk p = true ∧ cfg.sigAlgOk sg = true ∧
       cfg.verify k h sg = true ∧
       [Out.hostKeyAccepted k, Out.sigVerified k h].Sublist pre := by
   have hs := run_safe cfg evs evs St.init [] (fun _ h => h) wf_init (by simp [St.init])
@@ -324,7 +326,7 @@ theorem liar_rejected (cfg : Cfg Hash Sig) (Signed : KeyId → Hash → Sig → 
   | false => rfl
   | true =>
     obtain ⟨pre, post, hsplit⟩ := List.append_of_mem hmem
-    obtain ⟨p, h, sg, now4, k, hm, hv, hs, _⟩ := no_auth_before_trust cfg evs pre post o hsplit hauth
+    obtain ⟨p, h, sg, now4, k, hm, hv, _, _, hs, _⟩ := no_auth_before_trust cfg evs pre post o hsplit hauth
     exact absurd (ideal k h sg hs) (liar p h sg now4 k hm hv)
 
 /-- **An untrusted server gets a host-key error and nothing else (clause "otherwise the connection fails with a
@@ -332,28 +334,49 @@ theorem liar_rejected (cfg : Cfg Hash Sig) (Signed : KeyId → Hash → Sig → 
     trace is: `hostKeyRejected r`, disconnect with HostKeyNotVerifiable — no NEWKEYS, nothing after, whatever
     follows on the wire. -/
 theorem untrusted_fails_closed (cfg : Cfg Hash Sig) (p : Presented) (h : Hash) (sg : Sig) (now4 : Nat) (r : Reject)
-    (rest : List (Ev Hash Sig))
+    (rest : List (Ev Hash Sig)) (hka : cfg.keyAlgOk p = true)
     (hrej : validateHostKey cfg.trust cfg.app cfg.host cfg.addr cfg.port now4 p = .error r) :
     run cfg St.init (.kexInit :: .kexReply p h sg now4 :: rest) =
       [.hostKeyRejected r, .disconnect (.hostKeyNotVerifiable r)] := by
-  simp [run, step, St.init, hrej, fail, run_closed]
+  simp [run, step, validateServerHostKey, St.init, hka, hrej, fail, run_closed]
+
+/-- **A host key of another type than negotiated gets a host-key error and nothing else**, trusted or not: the
+    blob decodes but cannot be used with the host key algorithm this connection negotiated. -/
+theorem wrong_key_alg_fails_closed (cfg : Cfg Hash Sig) (p : Presented) (h : Hash) (sg : Sig) (now4 : Nat)
+    (rest : List (Ev Hash Sig)) (hp : p ≠ .garbage) (hka : cfg.keyAlgOk p = false) :
+    run cfg St.init (.kexInit :: .kexReply p h sg now4 :: rest) =
+      [.hostKeyRejected .algMismatch, .disconnect (.hostKeyNotVerifiable .algMismatch)] := by
+  simp [run, step, validateServerHostKey, St.init, hp, hka, fail, run_closed]
+
+/-- **A signature made with another signature algorithm than the negotiated one ends the handshake**, for a trusted
+    key as well and whatever the signature bytes are: the key handed back by `validate_server_host_key` accepts only
+    the negotiated algorithm's signature algorithm, so the signature does not verify — KeyExchangeFailed, nothing
+    else. -/
+theorem wrong_sig_alg_fails_closed (cfg : Cfg Hash Sig) (p : Presented) (h : Hash) (sg : Sig) (now4 : Nat)
+    (k : KeyId) (rest : List (Ev Hash Sig)) (hka : cfg.keyAlgOk p = true)
+    (hacc : validateHostKey cfg.trust cfg.app cfg.host cfg.addr cfg.port now4 p = .ok k)
+    (hsa : cfg.sigAlgOk sg = false) :
+    run cfg St.init (.kexInit :: .kexReply p h sg now4 :: rest) =
+      [.hostKeyAccepted k, .sigBad k, .disconnect .keyExchangeFailed] := by
+  simp [run, step, validateServerHostKey, St.init, hka, hacc, hsa, fail, run_closed]
 
 /-- The same for a trusted blob with a signature that does not verify: KeyExchangeFailed, nothing else. -/
 theorem bad_signature_fails_closed (cfg : Cfg Hash Sig) (p : Presented) (h : Hash) (sg : Sig) (now4 : Nat)
-    (k : KeyId) (rest : List (Ev Hash Sig))
+    (k : KeyId) (rest : List (Ev Hash Sig)) (hka : cfg.keyAlgOk p = true) (hsa : cfg.sigAlgOk sg = true)
     (hacc : validateHostKey cfg.trust cfg.app cfg.host cfg.addr cfg.port now4 p = .ok k)
     (hbad : cfg.verify k h sg = false) :
     run cfg St.init (.kexInit :: .kexReply p h sg now4 :: rest) =
       [.hostKeyAccepted k, .sigBad k, .disconnect .keyExchangeFailed] := by
-  simp [run, step, St.init, hacc, hbad, fail, run_closed]
+  simp [run, step, validateServerHostKey, St.init, hka, hsa, hacc, hbad, fail, run_closed]
 
 /-- An honest, trusted server: the trace of a normal connection start. -/
 theorem trusted_proceeds (cfg : Cfg Hash Sig) (p : Presented) (h : Hash) (sg : Sig) (now4 : Nat) (k : KeyId)
+    (hka : cfg.keyAlgOk p = true) (hsa : cfg.sigAlgOk sg = true)
     (hacc : validateHostKey cfg.trust cfg.app cfg.host cfg.addr cfg.port now4 p = .ok k)
     (hgood : cfg.verify k h sg = true) :
     run cfg St.init [.kexInit, .kexReply p h sg now4, .newkeys, .serviceAccept true] =
       [.hostKeyAccepted k, .sigVerified k h, .sendNewkeys, .sendServiceRequest, .sendUserauthRequest] := by
-  simp [run, step, St.init, hacc, hgood]
+  simp [run, step, validateServerHostKey, St.init, hka, hsa, hacc, hgood]
 
 /-! ## what is looked up and offered -/
 
@@ -435,7 +458,7 @@ def idealVerify (k : KeyId) (h : Nat) (sg : Nat × Nat) : Bool := sg.1 == k && s
 
 def exCfg : Cfg Nat (Nat × Nat) :=
   { trust := some ⟨[1], [7], [3]⟩, app := App.default, host := "host.example", addr := "10.0.0.1", port := 22,
-    verify := idealVerify }
+    verify := idealVerify, keyAlgOk := fun _ => true, sigAlgOk := fun sg => sg.1 != 0 }
 
 /-- a listed key with a genuine signature: the handshake proceeds to USERAUTH_REQUEST -/
 theorem trusted_proceeds_example :
@@ -471,5 +494,15 @@ theorem accept_iff_example :
     validateHostKey exCfg.trust App.default "host.example" "10.0.0.1" 22 40
       (.cert ⟨5, 8, 2, 10, 20, []⟩) = .error .caUntrusted := by
   decide +kernel
+
+/-- the trusted key 1 presented where the negotiated algorithm asks for another key type: a host key error; the
+    same key with a signature that names another signature algorithm (modelled as signer 0): KeyExchangeFailed -/
+theorem wrong_alg_example :
+    run { exCfg with keyAlgOk := fun _ => false } St.init
+      [.kexInit, .kexReply (.key 1) 99 (1, 99) 0, .newkeys, .serviceAccept true] =
+      [.hostKeyRejected .algMismatch, .disconnect (.hostKeyNotVerifiable .algMismatch)] ∧
+    run exCfg St.init [.kexInit, .kexReply (.key 1) 99 (0, 99) 0, .newkeys, .serviceAccept true] =
+      [.hostKeyAccepted 1, .sigBad 1, .disconnect .keyExchangeFailed] := by
+  decide
 
 end AsyncsshModel.Props.C04
